@@ -21,6 +21,7 @@ type execExtra struct {
 	pendingGuardHeaps []string
 	rangeKeys         map[*ssa.Range]string
 	havocAll          bool
+	pendingParamInv   bool
 	hypMode           bool
 	writtenRefs       map[string][]*Node
 	writtenWhole      map[string]bool
@@ -152,18 +153,26 @@ func (e *Exec) runSiteSpecs(s *State, ins ssa.Instruction, specs []*SiteSpec, be
 		if st, ok := ins.(*ssa.Store); ok {
 			extra["stored"] = specVar{e.val(s, st.Val), st.Val.Type()}
 		}
+		// assumptions of a site scope over that site's assertions only; a site without assertions is a
+		// persistent (trusted) assumption
+		hs := s
+		if len(ss.Assert) > 0 {
+			hs = s.clone()
+		} else if e.quiet == 0 {
+			e.v.noteTrusted(fmt.Sprintf("assumed at site %s of %s", ss.Label, e.funcKey))
+		}
 		for _, a := range ss.Assume {
-			s.assume(e.asHyp(func() *Node { return e.evalClauseCur(a, s, e.entry, extra) }))
+			hs.assume(e.asHyp(func() *Node { return e.evalClauseCur(a, hs, e.entry, extra) }))
 		}
 		if e.quiet == 0 {
 			e.counters["site:"+ss.Label]++
 		}
 		ord := e.counters["site:"+ss.Label]
 		for i, a := range ss.Assert {
-			g := e.evalClauseCur(a, s, e.entry, extra)
+			g := e.evalClauseCur(a, hs, e.entry, extra)
 			name := fmt.Sprintf("%s/site:%s#%d/assert#%d", e.funcKey, ss.Label, ord, i+1)
 			if e.quiet == 0 {
-				e.obls = append(e.obls, &Obligation{Name: name, Kind: "site", Pos: ins.Pos(), Goal: g, Hyp: s.pc, Func: e.funcKey,
+				e.obls = append(e.obls, &Obligation{Name: name, Kind: "site", Pos: ins.Pos(), Goal: g, Hyp: hs.pc, Func: e.funcKey,
 					Text: a.Text, Props: unionProps(orProps(a.Props, orProps(ss.Props, e.props))), Mode: e.mode, exec: e})
 			}
 		}
@@ -257,4 +266,51 @@ func (e *Exec) binaryRW(s *State, ins ssa.Instruction, full string, args []Value
 	errv := res.E[1].(*Node)
 	e.writeLoc(s, loc, Ite(Eq(errv, ifaceNil()), res.E[0].(*Node), old))
 	return errv, true
+}
+
+// ---------- value invariants ----------
+
+func (e *Exec) valInvsFor(t types.Type) []*ValInv {
+	if t == nil || len(e.v.db.ValInvs) == 0 {
+		return nil
+	}
+	ptr := false
+	if p, ok := t.(*types.Pointer); ok {
+		t = p.Elem()
+		ptr = true
+	}
+	n, ok := t.(*types.Named)
+	if !ok || n.Obj().Pkg() == nil {
+		return nil
+	}
+	var out []*ValInv
+	for _, vi := range e.v.db.ValInvs {
+		if vi.TypeName == n.Obj().Name() && vi.PkgPath == n.Obj().Pkg().Path() && vi.Ptr == ptr {
+			out = append(out, vi)
+		}
+	}
+	return out
+}
+
+func (e *Exec) evalValInv(vi *ValInv, s *State, v Value, t types.Type) *Node {
+	cc := calleeCtx{e.v.pkgByPath(vi.PkgPath)}
+	return cc.evalWith(e, vi.Clause, s, s, map[string]specVar{"v": {v, t}})
+}
+
+func (e *Exec) assumeValInv(s *State, v Value, t types.Type) {
+	for _, vi := range e.valInvsFor(t) {
+		s.assume(e.asHyp(func() *Node { return e.evalValInv(vi, s, v, t) }))
+	}
+}
+
+func (e *Exec) assertValInv(s *State, v Value, t types.Type, ins ssa.Instruction, what string) {
+	if e.quiet > 0 {
+		return
+	}
+	for _, vi := range e.valInvsFor(t) {
+		g := e.evalValInv(vi, s, v, t)
+		tn := vi.TypeName
+		e.obls = append(e.obls, &Obligation{Name: e.oblName("valinv/" + tn), Kind: "valinv", Pos: ins.Pos(), Goal: g, Hyp: s.pc, Func: e.funcKey,
+			Text: what + ": " + vi.Clause.Text, Props: unionProps(orProps(vi.Props, e.props)), Mode: e.mode, exec: e})
+	}
 }
